@@ -429,7 +429,7 @@ def clauses():
                "non-trivial = boundary index, non-uniform scalar class, or IL + k wraps past n",
                gen=lambda tier: st.fixed_dictionaries({"parent": parents(), "i": S.indexes()}),
                nontrivial=nt_step, classes=classes_step,
-               n={"quick": 2400, "thorough": 150000}, shards={"quick": 16, "thorough": 16}),
+               n={"quick": 2400, "thorough": 80000}, shards={"quick": 16, "thorough": 16}),
         Clause("path", check_path,
                "root + index list of length 0..8 compared at every intermediate node, and derive_path(list) on a "
                "fresh root; non-trivial = length >= 2 with a hardened and a normal index",
